@@ -102,6 +102,7 @@ type Interp struct {
 	tier      string
 	feasCache map[string]bool
 	pruneAll  bool
+	deferredFacts []string
 	trivialN    int
 	harnessFn   map[*ssa.Function]bool
 	stash       map[string]Value
